@@ -322,6 +322,8 @@ type storageGen struct {
 	ips     []string
 	blocks  int
 	lastBuy *sttypes.MsgBuyStorage
+	burst   int // how many more equal purchases follow at once (three and more deposits into one gauge id)
+	noBlock int // steps during which no block boundary is taken (so that a burst stays in one block)
 }
 
 func (g *storageGen) user() string { return g.users[g.r.Intn(len(g.users))] }
@@ -366,6 +368,9 @@ func (g *storageGen) next() (sdk.Msg, map[string]interface{}, func(pre, post stS
 	m := g.mix
 	tot := m.buy + m.post + m.del + m.proof + m.prov + m.forms + m.sign + m.setters
 	k := r.Intn(tot)
+	if g.burst > 0 && g.lastBuy != nil {
+		k = 0 // the buy branch, repeating the last purchase
+	}
 	params := c.A.StorageKeeper.GetParams(c.Ctx())
 	files := g.allFiles()
 	bigEnd := func(days int64) *big.Int { // now + days·24h without wrap-around, as the chain's time arithmetic gives it
@@ -389,6 +394,9 @@ func (g *storageGen) next() (sdk.Msg, map[string]interface{}, func(pre, post stS
 		if r.Intn(12) == 0 { // a beneficiary the chain has never seen (its account is created on the fly)
 			forAddr = sdk.AccAddress([]byte(fmt.Sprintf("fresh-beneficiary-%03d", r.Intn(1000)))).String()
 		}
+		if r.Intn(25) == 0 { // a module account as beneficiary (block processing fetches these as module accounts)
+			forAddr = c.ModuleAddr([]string{"fee_collector", "distribution", minttypes.ModuleName, sttypes.ModuleName, "bonded_tokens_pool"}[r.Intn(5)])
+		}
 		days := []int64{30, 30, 31, 60, 365, 366, 400, 1000, 29, 1, 0, -5, 106752, 1 << 40}[r.Intn(14)]
 		if r.Intn(3) > 0 {
 			days = int64(30 + r.Intn(700))
@@ -410,7 +418,12 @@ func (g *storageGen) next() (sdk.Msg, map[string]interface{}, func(pre, post stS
 		if a, err := c.A.RnsKeeper.Resolve(c.Ctx(), ref); err == nil {
 			refJ = a.String()
 		}
-		if g.lastBuy != nil && r.Intn(6) == 0 { // an equal purchase by another account, often in the same block (same gauge id)
+		if g.lastBuy != nil && (g.burst > 0 || r.Intn(6) == 0) { // an equal purchase by another account, often in the same block (same gauge id)
+			if g.burst > 0 {
+				g.burst--
+			} else if r.Intn(2) == 0 {
+				g.burst, g.noBlock = 1+r.Intn(3), 5
+			}
 			days, byts, denom, ref = g.lastBuy.DurationDays, g.lastBuy.Bytes, g.lastBuy.PaymentDenom, g.lastBuy.Referral
 			if a, err := c.A.RnsKeeper.Resolve(c.Ctx(), ref); err == nil {
 				refJ = a.String()
@@ -729,7 +742,10 @@ func runStorage(profile string, seed int64, histories, steps int, out *Emitter) 
 			"https://s1.alpha.net", "https://s2.beta.org", "https://gamma.io", "https://store.delta.dev", "https://eps.xyz:8080"}
 		c.Begin(6 * time.Second)
 		for i := 0; i < steps; i++ {
-			if r.Intn(4) == 0 { // block boundary: one step record for the storage BeginBlocker
+			if g.noBlock > 0 {
+				g.noBlock--
+			}
+			if g.noBlock == 0 && r.Intn(4) == 0 { // block boundary: one step record for the storage BeginBlocker
 				dt := []time.Duration{6 * time.Second, 6 * time.Second, time.Hour, 24 * time.Hour, 10 * 24 * time.Hour, 40 * 24 * time.Hour, 400 * 24 * time.Hour}[r.Intn(7)]
 				if r.Intn(3) > 0 {
 					dt = 6 * time.Second
